@@ -26,6 +26,8 @@ enum Op {
     Rec(usize, f64),
     /// n values 0, 1, .., n-1 into one histogram (more than one 64-slot bucket block between two snapshots)
     RecMany(usize, usize),
+    /// histogram.record_many(v, n): the batched entry point of the handle (n = 0 records nothing)
+    Batch(usize, f64, usize),
     /// counter.absolute(v): the counter becomes at least v (a lower v changes nothing)
     Abs(usize, u64),
     Snapshot,
@@ -74,6 +76,8 @@ fn alphabet() -> Vec<Op> {
         Op::Rec(0, 1.0),
         Op::Rec(0, 2.0),
         Op::Rec(0, f64::NAN),
+        Op::Batch(0, 7.0, 0),
+        Op::Batch(0, 7.0, 3),
         Op::Snapshot,
     ]
 }
@@ -136,6 +140,13 @@ impl Model {
                 let h = self.hists.get_mut(&canon(&mk_key(i))).unwrap();
                 for j in 0..n {
                     h.push((j as f64).to_bits());
+                }
+            }
+            Op::Batch(i, v, n) => {
+                self.register(K::H, &mk_key(i));
+                let h = self.hists.get_mut(&canon(&mk_key(i))).unwrap();
+                for _ in 0..n {
+                    h.push(v.to_bits());
                 }
             }
             Op::Snapshot => {}
@@ -210,6 +221,7 @@ fn apply_real(rec: &DebuggingRecorder, op: Op) {
                 h.record(j as f64);
             }
         }
+        Op::Batch(i, v, n) => rec.register_histogram(&mk_key(i), &META).record_many(v, n),
         Op::Snapshot => {}
     }
 }
@@ -740,7 +752,7 @@ fn main() {
     driver::main(CheckDef {
         prop: "C19",
         level: "model_checking",
-        rule: "E3: every sequence of depth <= 4 (thorough 6) over {63, 64, 65, 130 records into one histogram, one record, 65 records into another, snapshot} (windows around the 64-slot block size of the bucket); every sequence of the stated depth over 19 operations (describe with two different units / without unit and four texts, register of 4 keys incl. an equal key built differently, absolute counter values below and above the current one, increments through a pair of equal keys whose two labels share a name and are spelled in either order and the same name under three kinds, counter/gauge/histogram updates, snapshot) on a fresh real DebuggingRecorder, plus a final snapshot; every snapshot compared with a reference (first-registration order, described-only metrics absent, latest description, unit kept, histogram values since the previous snapshot); 450 metrics on one recorder with snapshots at doubling sizes (every map grows several times); all pairs of 3-step macro programs on two threads with local recorders; all programs of <= 2 local scopes (closure or guard, left normally or by a caught panic, optionally one nested scope) over two recorders on one thread, each recorder's snapshot listing exactly the emissions made while it was innermost; E1: all SC interleavings of a recording thread with a snapshotting thread, of two registrants, of two snapshotters, and of two threads updating one gauge and one counter through their own handles; distinct = distinct snapshots; counter.absolute below and above the current value",
+        rule: "E3: every sequence of depth <= 4 (thorough 6) over {63, 64, 65, 130 records into one histogram, one record, 65 records into another, snapshot} (windows around the 64-slot block size of the bucket); every sequence of the stated depth over 19 operations (describe with two different units / without unit and four texts, register of 4 keys incl. an equal key built differently, absolute counter values below and above the current one, increments through a pair of equal keys whose two labels share a name and are spelled in either order and the same name under three kinds, counter/gauge/histogram updates incl. record_many with counts 0 and 3, snapshot) on a fresh real DebuggingRecorder, plus a final snapshot; every snapshot compared with a reference (first-registration order, described-only metrics absent, latest description, unit kept, histogram values since the previous snapshot); 450 metrics on one recorder with snapshots at doubling sizes (every map grows several times); all pairs of 3-step macro programs on two threads with local recorders; all programs of <= 2 local scopes (closure or guard, left normally or by a caught panic, optionally one nested scope) over two recorders on one thread, each recorder's snapshot listing exactly the emissions made while it was innermost; E1: all SC interleavings of a recording thread with a snapshotting thread, of two registrants, of two snapshotters, and of two threads updating one gauge and one counter through their own handles; distinct = distinct snapshots; counter.absolute below and above the current value",
         assumptions: &["E1: sequential consistency, one registry shard"],
         parts,
         run,
